@@ -214,10 +214,10 @@ func doCases(caseFile, streamFile string) {
 		}
 		// Unmarshal of the cut stream: the first message, if complete, must be returned; allocation proportional to input
 		if cut > 0 {
-			var ms1, ms2 runtime.MemStats
-			runtime.ReadMemStats(&ms1)
-			m, err := capnp.Unmarshal(st.plain[:cut])
-			runtime.ReadMemStats(&ms2)
+			var m *capnp.Message
+			var err error
+			bound1 := uint64(64*cut + allocSlack)
+			a1 := allocOf(bound1, func() { m, err = capnp.Unmarshal(st.plain[:cut]) })
 			stats["unmarshals"]++
 			first := st.plainEnds[0]
 			if cut >= first {
@@ -229,8 +229,8 @@ func doCases(caseFile, streamFile string) {
 			} else if err == nil {
 				emit(J{"line": line, "what": "unmarshal", "got": "accepted a torn frame", "want": "error", "case": c})
 			}
-			if a := ms2.TotalAlloc - ms1.TotalAlloc; a > uint64(64*cut+4096) {
-				emit(J{"line": line, "what": "unmarshal-alloc", "got": fmt.Sprint(a), "want": fmt.Sprintf("<= %d", 64*cut+4096), "case": c})
+			if a1 > bound1 {
+				emit(J{"line": line, "what": "unmarshal-alloc", "got": fmt.Sprint(a1), "want": fmt.Sprintf("<= %d", bound1), "case": c})
 			}
 		}
 	})
@@ -286,24 +286,22 @@ func doHostile(file string) {
 		want := c["exp"].(string)
 		for _, reuse := range []bool{false, true} {
 			runtime.GC()
-			var ms1, ms2 runtime.MemStats
-			d := capnp.NewDecoder(&chunkReader{b, 4096})
-			d.MaxMessageSize = lim
-			if reuse {
-				d.ReuseBuffer()
-			}
-			runtime.ReadMemStats(&ms1)
 			var err error
 			var m *capnp.Message
-			func() {
+			decodeOnce := func() {
+				d := capnp.NewDecoder(&chunkReader{b, 4096})
+				d.MaxMessageSize = lim
+				if reuse {
+					d.ReuseBuffer()
+				}
 				defer func() {
 					if p := recover(); p != nil {
 						err = fmt.Errorf("PANIC: %v", p)
 					}
 				}()
 				m, err = d.Decode()
-			}()
-			runtime.ReadMemStats(&ms2)
+			}
+			a2 := allocOf(bound, decodeOnce)
 			stats["decodes"]++
 			got := "reject"
 			if err == nil && m != nil {
@@ -316,29 +314,50 @@ func doHostile(file string) {
 			if want != "either" && want != got {
 				emit(J{"line": line, "what": "hostile-header", "reuse": reuse, "got": got + " (" + fmt.Sprint(err) + ")", "want": want, "case": c})
 			}
-			if a := ms2.TotalAlloc - ms1.TotalAlloc; a > bound {
-				emit(J{"line": line, "what": "decode-alloc", "reuse": reuse, "got": fmt.Sprint(a), "want": fmt.Sprintf("<= %d", bound), "case": c})
+			if a2 > bound {
+				emit(J{"line": line, "what": "decode-alloc", "reuse": reuse, "got": fmt.Sprint(a2), "want": fmt.Sprintf("<= %d", bound), "case": c})
 			}
 		}
 		// Unmarshal: memory proportional to the input only
-		var ms1, ms2 runtime.MemStats
-		runtime.ReadMemStats(&ms1)
-		func() {
+		bound3 := uint64(64*len(b) + allocSlack)
+		panicked := false
+		a3 := allocOf(bound3, func() {
 			defer func() {
-				if p := recover(); p != nil {
+				if p := recover(); p != nil && !panicked {
+					panicked = true
 					emit(J{"line": line, "what": "panic", "got": fmt.Sprint("Unmarshal: ", p), "case": c})
 				}
 			}()
 			capnp.Unmarshal(b)
-		}()
-		runtime.ReadMemStats(&ms2)
+		})
 		stats["unmarshals"]++
-		if a := ms2.TotalAlloc - ms1.TotalAlloc; a > uint64(64*len(b)+4096) {
-			emit(J{"line": line, "what": "unmarshal-alloc", "got": fmt.Sprint(a), "want": fmt.Sprintf("<= %d", 64*len(b)+4096), "case": c})
+		if a3 > bound3 {
+			emit(J{"line": line, "what": "unmarshal-alloc", "got": fmt.Sprint(a3), "want": fmt.Sprintf("<= %d", bound3), "case": c})
 		}
 	})
 	emit(J{"summary": true, "cases": n, "stats": stats})
 }
+
+// allocOf returns the bytes allocated while f runs.  TotalAlloc is process wide (the runtime's own goroutines
+// allocate too), so a measurement above the bound is repeated and the minimum counts.
+func allocOf(bound uint64, f func()) uint64 {
+	best := ^uint64(0)
+	for i := 0; i < 5; i++ {
+		var ms1, ms2 runtime.MemStats
+		runtime.ReadMemStats(&ms1)
+		f()
+		runtime.ReadMemStats(&ms2)
+		if a := ms2.TotalAlloc - ms1.TotalAlloc; a < best {
+			best = a
+		}
+		if best <= bound {
+			break
+		}
+	}
+	return best
+}
+
+const allocSlack = 16384
 
 func main() {
 	switch os.Args[1] {
